@@ -3,6 +3,7 @@ import TF.Drv.Proto
 import TF.Model.HashTip5Fast
 import TF.Model.MmrMember
 import TF.Spec.MmrE
+import TF.Gen.MmrProofLoops
 /-!
 driver handler for the family `mmrp` (C05, `MmrMembershipProof` and the accumulator's batch mutation).
 
@@ -219,11 +220,29 @@ def freeCheck (N K : Nat) : Bool := Id.run do
     | none => ok := false
   return ok
 
+/-! BT7: `MmrMembershipProof::{verify, get_node_indices, get_direct_path_indices, get_peak_index_and_height}` **regenerated
+from source** (`TF/Gen/MmrProofLoops.lean`, tools/rs2lean_mmr.py) evaluated next to the hand model on every `verify` op: a false
+`_ok` flag of `verify` is a panic (`none`); a difference is printed as `GEN-MISMATCH` (and therefore shows up as a disagreement
+with the implementation).  The index helpers are compared by value for paths of at most 64 digests. -/
+def genVerifyAgrees (path : List Dg) (i : Nat) (leaf : Dg) (peaks : List Dg) (n : Nat) : Bool :=
+  let g := if TF.Gen.Loops.mmrmp_verify_ok Hh [] path i leaf peaks n
+    then TF.Gen.Loops.mmrmp_verify Hh [] path i leaf peaks n else none
+  g == memberVerify Hh path i leaf peaks n
+
+def genIndexHelpersAgree (path : List Dg) (i : Nat) : Bool :=
+  path.length > 64 ||
+  (TF.Gen.Loops.mmrmp_get_node_indices Hh [] path i == TF.Model.Mmr.get_node_indices i path.length &&
+   TF.Gen.Loops.mmrmp_get_direct_path_indices Hh [] path i == TF.Model.Mmr.get_direct_path_indices i path.length &&
+   (if (TF.Gen.Loops.mmrmp_get_direct_path_indices Hh [] path i).elim true (fun l => !l.isEmpty)
+      then TF.Gen.Loops.mmrmp_get_peak_index_and_height Hh [] path i else none) == getPeakIndexAndHeight path i)
+
 def mmrp : Handler
   | "verify", [.sym _, .nat i, leaf, peaks, .nat n, path] => do
     let leaf ← leaf.natList?
     let peaks ← peaks.natListList?
     let path ← path.natListList?
+    if !genVerifyAgrees path i leaf peaks n then pure "GEN-MISMATCH MmrMembershipProof::verify" else
+    if !genIndexHelpersAgree path i then pure "GEN-MISMATCH MmrMembershipProof index helpers" else
     pure (match memberVerify Hh path i leaf peaks n with
       | some b => "ok:" ++ fmtBool b
       | none => "panic")
